@@ -703,6 +703,29 @@ theorem og_heights_subset_sorted (s : List ℕ) (N : ℕ) (h p : ℕ → ℝ) (h
   · rw [e, List.pairwise_map]
     exact List.Pairwise.imp_of_mem (fun {a b} _ hb hab => hmono a b hab (hp2 b hb).2) hp1
 
+/-- **`og_heights_at_increasing_indices`** (the part of `og_heights_subset_sorted` that needs NO hypothesis on the input
+heights — they may be unsorted or repeated): the returned heights are `h r₀, h r₁, …` at strictly increasing layer indices
+`r₀ < r₁ < … < N`, one per group -/
+theorem og_heights_at_increasing_indices (s : List ℕ) (N : ℕ) (h p : ℕ → ℝ) (hv : Valid s N) :
+    ∃ reps : List ℕ, (ogOut h p s N).map Prod.fst = reps.map h ∧ reps.length = s.length + 1 ∧
+      reps.Pairwise (· < ·) ∧ (∀ r ∈ reps, r < N) := by
+  obtain ⟨hp1, hp2⟩ := reps_sorted h p 0 s N hv
+  refine ⟨(groups s N).map (fun ab => (bestRep h p ab.1 ab.2).1), by simp [ogOut, Function.comp_def], ?_, hp1,
+    fun r hr => (hp2 r hr).2⟩
+  rw [List.length_map]; exact groupsFrom_length 0 s N
+
+/-- **`og_heights_descending_input`**: the ordering hypothesis `hmono` of `og_heights_subset_sorted` cannot be dropped —
+strictly DEcreasing input heights come back strictly decreasing ("heights in increasing order" is a statement about
+profiles given in increasing order) -/
+theorem og_heights_descending_input (s : List ℕ) (N : ℕ) (h p : ℕ → ℝ) (hv : Valid s N)
+    (hanti : ∀ i j, i < j → j < N → h j < h i) :
+    ((ogOut h p s N).map Prod.fst).Pairwise (· > ·) := by
+  obtain ⟨hp1, hp2⟩ := reps_sorted h p 0 s N hv
+  have e : (ogOut h p s N).map Prod.fst = ((groups s N).map (fun ab => (bestRep h p ab.1 ab.2).1)).map h := by
+    simp [ogOut, Function.comp_def]
+  rw [e, List.pairwise_map]
+  exact List.Pairwise.imp_of_mem (fun {a b} _ hb hab => hanti a b hab (hp2 b hb).2) hp1
+
 /-- the cost `G` of a grouping is the cost of the layers `optimal_grouping` returns for it: the sum over the groups of
 `Σ_j p_j |h_j − h_rep|` with `rep` the returned representative, which is the cheapest representative of its group -/
 theorem G_eq_returned_cost (s : List ℕ) (N : ℕ) (h p : ℕ → ℝ) (hv : Valid s N) :
